@@ -172,6 +172,9 @@ func (Engine) Generate(prop string, r *kit.Rand, tier string) *kit.Scenario[Conf
 		if mode == 2 && r.Chance(0.4) {
 			o.Act = "drop"
 		}
+		if r.Chance(0.05) {
+			o.Act = "nack"
+		}
 		o.DelayMs = kit.Pick(r, []int{1, 10, 100, 500, 900, 1500, 3900, 4100})
 		sc.Ops = append(sc.Ops, o)
 	}
@@ -553,6 +556,7 @@ func (e Engine) run(ctx *kit.Ctx, sc *kit.Scenario[Config, Op], res *kit.Result,
 	}
 	faults := map[string]*fault{} // "obj|seg|attempt|interest/data"
 	blackout := [2]bool{}
+	nacked := [2]bool{} // a Nack answers one of the object's Interests: that fetch may end in an error
 	dropsPerSeg := map[[2]int]int{}
 
 	for i := range sc.Ops {
@@ -631,6 +635,9 @@ func (e Engine) run(ctx *kit.Ctx, sc *kit.Scenario[Config, Op], res *kit.Result,
 				blackout[ob] = true
 				ctx.Fault("object-blackout")
 			}
+			if act == "nack" {
+				nacked[ob] = true
+			}
 		case "consume":
 			type fetch struct {
 				obj         int
@@ -691,7 +698,7 @@ func (e Engine) run(ctx *kit.Ctx, sc *kit.Scenario[Config, Op], res *kit.Result,
 			}
 			var later []*fetch
 			for _, f := range fetches {
-				if blackout[f.obj] {
+				if blackout[f.obj] || nacked[f.obj] {
 					f.lossBeyond = true
 				}
 				if f.obj == 1 && o.StaggerMs > 0 && len(fetches) == 2 {
@@ -800,6 +807,15 @@ func (e Engine) run(ctx *kit.Ctx, sc *kit.Scenario[Config, Op], res *kit.Result,
 							continue
 						case "delay":
 							at += fl.delay
+						case "nack":
+							// the network answers with a Nack (no route) after the given delay; a Nack is a final
+							// result for the retransmitting client, the fetch may fail - once
+							lp := &spec.Packet{LpPacket: &spec.LpPacket{Nack: &spec.NetworkNack{Reason: spec.NackReasonNoRoute}, Fragment: enc.Wire{append([]byte(nil), f...)}}}
+							encoder := spec.PacketEncoder{}
+							encoder.Init(lp)
+							seq++
+							queue = append(queue, inflight{at: at + fl.delay, seq: seq, toP: false, frame: encoder.Encode(lp).Join()})
+							continue
 						case "corrupt":
 							f = facesim.Mutate(f, fl.op.Mut, fl.op.At, fl.op.Val)
 							corrupted++
